@@ -251,6 +251,27 @@ def owner_document_tests(facts, f):
     return out
 
 
+def r13_5(facts, res, rule="R13-5"):
+    """With text expansion on, XmlElement::children() hands out *merged* text nodes (XmlNode::ExpandedText) whose id() is the id
+    of their first piece only.  A mutator of XmlElement that removes the node a caller passes in has to treat that variant
+    separately, otherwise only the first piece goes and the parent still lists the rest."""
+    from facts import walk
+    st = res.rule(rule, instances=0)
+    ch = facts.fn("xml_dom::<XmlElement as HasChild>::children")
+    merges = any(str(n.get("path", "")).endswith("XmlExpandedText::from") or "XmlExpandedText" in str(n.get("ty", "")) for n in walk(ch["body"]))
+    if not merges:
+        return
+    for meth in ("remove_child",):
+        f = facts.fn("xml_dom::<XmlElement as NodeMut>::%s" % meth)
+        st["instances"] += 1
+        handles = any(str(p.get("path", "")).endswith("XmlNode::ExpandedText") for p in walk(f["body"]) if p.get("p"))
+        res.oblige(1, handles)
+        if not handles:
+            res.add(Finding(rule, "XmlElement::" + meth, "%s removes the node by XmlNode::id(), which for a merged text node is the id of its "
+                            "first piece: the other pieces stay in the element (no case for XmlNode::ExpandedText)" % f["path"],
+                            f["file"], f["line"], {}))
+
+
 def run(facts, tier):
     res = Result("C13")
     res.explanation = (
@@ -276,6 +297,7 @@ def run(facts, tier):
     r13_3(facts, res)
     r13_3_wrong_doc_first(facts, res)
     r13_3c_everywhere(facts, res)
+    r13_5(facts, res)
     import staleidx
     staleidx.rule(facts, res, "R13-4", lambda f: f["crate"] in ("xml_info", "xml_dom"), floor=7)
     return res
